@@ -40,6 +40,11 @@ EXTRA.update({
  "C08-r7gcm2": ["C08", "C09"], "C17-r7gdm1": ["C17"], "C10-r7gdm2": ["C10", "C04", "C03", "C09"], "C07-r7gem1": ["C07"], "C06-r7gem2": ["C05", "C06"],
  "C01-r7gfm1": ["C01"], "C14-r7gfm2": ["C14", "C11"],
 })
+EXTRA.update({
+ "C10-r8gam1": ["C10", "C04", "C09"], "C06-r8gam2": ["C06"], "C03-r8gbm1": ["C03", "C04"], "C15-r8gbm2": ["C15"], "C04-r8gcm1": ["C04"],
+ "C13-r8gcm2": ["C13", "C04"], "C09-r8gdm1": ["C09"], "C16-r8gdm2": ["C16"], "C07-r8gem1": ["C07"], "C17-r8gem2": ["C17", "C04"],
+ "C01-r8gfm1": ["C01", "C02"], "C12-r8gfm2": ["C12"],
+})
 PREFIX_PROP = {"d8b687c": ["C06"], "da7613f": ["C16"], "64a92d9": ["C02"], "2c87331": ["C13", "C02", "C12"], "06fc22c": ["C05", "C11"],
                "85dc330": ["C05", "C11"], "4c427cc": ["C13"], "a8065bf": ["C13"], "a4e97cf": ["C11"], "2aa0389": ["C04"],
                "9db7846": ["C17"], "23f20cf": ["C17"], "b18464c": ["C07"], "d06cb78": ["C10"], "796c1d9": ["C01", "C11"], "e184993": ["C10"]}
